@@ -22,7 +22,7 @@ type chunkReader struct {
 	eofWith  bool // return io.EOF together with the last bytes
 	failAt   int  // -1: never; otherwise once pos reaches failAt the reader fails
 	failErr  error
-	trans    int  // number of transient failures before the persistent one (each followed by a retry opportunity)
+	trans    int // number of transient failures before the persistent one (each followed by a retry opportunity)
 	failures int
 	log      []int
 }
